@@ -137,7 +137,7 @@ def check(run, cases=None):
     K = max(GC.needed_K(c) for c in cases)
     EC.headroom_class = hclass
     try:
-        pairs = EC.evaluate([dict(c, conv='canon') for c in cases], K, 'MC_C07', run, spec='MC_Assembly', invariants=('Symmetric', 'FrameInvariant'), max_retry=12)
+        pairs = EC.evaluate([dict(c, conv='canon') for c in cases], K, 'MC_C07', run, spec='MC_Assembly', invariants=('Symmetric', 'FrameInvariant'), max_retry=80)
     finally:
         EC.headroom_class = old
     for c, obs in pairs:
